@@ -655,6 +655,7 @@ theorem writeAll_spec : ∀ (s : List WEv) (buf : Bytes),
       cases e with
       | pending => simpa [writeAll] using ih (b :: bs)
       | fail => simp [writeAll]
+      | stall => simp [writeAll]
       | accept k =>
         by_cases hk : k = 0
         · subst hk; simp [writeAll]
@@ -673,8 +674,8 @@ theorem writeAll_spec : ∀ (s : List WEv) (buf : Bytes),
             rw [List.length_append]
             omega
 
-/-- a sink that never fails and never accepts zero bytes -/
-def GoodSink (s : List WEv) : Prop := ∀ e ∈ s, e ≠ WEv.fail ∧ e ≠ WEv.accept 0
+/-- a sink that never fails, never accepts zero bytes and never stalls past the write timeout -/
+def GoodSink (s : List WEv) : Prop := ∀ e ∈ s, e ≠ WEv.fail ∧ e ≠ WEv.accept 0 ∧ e ≠ WEv.stall
 
 theorem writeAll_good : ∀ (s : List WEv) (buf : Bytes), GoodSink s →
     (writeAll buf s).res = .ok () ∧ GoodSink (writeAll buf s).rest := by
@@ -694,9 +695,10 @@ theorem writeAll_good : ∀ (s : List WEv) (buf : Bytes), GoodSink s →
       cases e with
       | pending => simpa [writeAll] using ih (b :: bs) ht
       | fail => exact absurd rfl (h .fail (by simp)).1
+      | stall => exact absurd rfl (h .stall (by simp)).2.2
       | accept k =>
         by_cases hk : k = 0
-        · subst hk; exact absurd rfl (h (.accept 0) (by simp)).2
+        · subst hk; exact absurd rfl (h (.accept 0) (by simp)).2.1
         · simp only [writeAll, hk, if_false]
           exact ih _ ht
 
